@@ -15,7 +15,32 @@ NOT_APPLICABLE = {
 for _p in ["C01", "C02", "C03", "C05", "C06", "C07", "C08", "C09", "C10", "C11", "C12", "C13", "C14", "C15", "C16", "C17", "C18", "C19", "C20"]:
     NOT_APPLICABLE.setdefault(_p, PENDING)
 
+E4_NOTE = ("Trusted: mypy 2.3.1 as a library for expression types (operator dispatch), CPython's ast, the idiom "
+           "recognisers of sa/absint.py (an unrecognised shape is exit 2, never a verdict). Each layer is checked against "
+           "its own specification and replaced by it when a higher layer calls into it.")
+
 CHECKS = {
+    "C01": {
+        "engine": "E1+E4",
+        "technique": "abstract interpretation of every Unit(...) construction site in a three-component group domain (prefix / factors / dimension) + CFG dominance of exactness guards over floor divisions",
+        "level_text": "Unit.__new__ ignores the dimension argument for an interned key, so the history property reduces to: every construction site passes the dimension that is the homomorphic image of the factors it passes. All 10 sites are enumerated from the resolved call graph and decided for all operands at once; the three root() guards are decided on the CFG. Every obligation is discharged on the repaired tree (two fix: commits).",
+        "design_ref": "DESIGN.md section 4, C01",
+        "level_note": E4_NOTE + " Assumes Dimension arithmetic is the exponent-vector group (decided by C02 R02.5).",
+    },
+    "C02": {
+        "engine": "E1+E4",
+        "technique": "structural rules on the three interning constructors (key dataflow, CFG dominance of the table store) + abstract interpretation of every Dimension/Prefix/Unit operator against the free-abelian-group specification (log-values for prefixes)",
+        "level_text": "Eight structural facts (canonical keys, intern protocol, componentwise group operations, renormalisation, no allocation bypass, base-unit keys, change-of-base identity) together imply that interned objects are exactly the elements of a free abelian group, for expression trees of any shape. Each fact is an armed rule over resolved structure; all are discharged.",
+        "design_ref": "DESIGN.md section 4, C02",
+        "level_note": E4_NOTE + " Not decided: the 1e-9 numeric bound for mixed-base prefixes and exactness tests on float exponents.",
+    },
+    "C11": {
+        "engine": "E1+E4+E5",
+        "technique": "abstract interpretation of Prefix/Unit operators (prefix component, log-value identities), value-preservation normal forms for quantify/unprefixed, def-use rule on convert/_plan_conversion, declared-prefix table from E5",
+        "level_text": "m*(p*u) = (m*value(p))*u, (p*u)**n = p**n*u**n, same-base exponent arithmetic, identity neutrality and prefix stripping are decided as identities of normal forms for all operands; the declared prefixes are enumerated exhaustively.",
+        "design_ref": "DESIGN.md section 4, C11",
+        "level_note": E4_NOTE + " Not decided: the 1e-9 bound for mixed SI/IEC prefixes (floating point).",
+    },
     "C09": {
         "engine": "E5",
         "technique": "partial evaluation of the declaration DSL from the AST in exact rational arithmetic + multiplicative Gaussian elimination (every cycle of the definition graph)",
